@@ -812,9 +812,9 @@ impl CoreApi for Enforcer {
     #[cfg(feature = "watcher")]
     #[inline]
     fn enable_auto_notify_watcher(&mut self, auto_notify_watcher: bool) {
-        if !auto_notify_watcher {
-            self.off(Event::PolicyChange);
-        } else {
+        // never register the handler twice
+        self.off(Event::PolicyChange);
+        if auto_notify_watcher {
             self.on(Event::PolicyChange, notify_logger_and_watcher);
         }
 
